@@ -60,6 +60,10 @@ type msgWriter struct {
 	multiPartWriter [4]*multipart.Writer
 	partWriter      io.Writer
 	writer          io.Writer
+	// enclosedForm makes an entity that is written at depth 0 use the header form of an
+	// enclosed MIME part (see writePartHeader). It is set for the S/MIME pre-rendering, whose
+	// output must be byte-identical to the first part of the final multipart/signed message.
+	enclosedForm bool
 }
 
 // Write implements the io.Writer interface for msgWriter.
@@ -374,7 +378,10 @@ func (mw *msgWriter) addFiles(files []*File, isAttachment bool) {
 		if contentID, ok := file.getHeader(HeaderContentID); ok {
 			file.setHeader(HeaderContentID, mw.encoder.Encode(mw.charset.String(), contentID))
 		}
-		if mw.depth == 0 {
+		if mw.depth == 0 && mw.enclosedForm {
+			mw.writePartHeader(file.Header)
+		}
+		if mw.depth == 0 && !mw.enclosedForm {
 			headers := make([]string, 0, len(file.Header))
 			for header := range file.Header {
 				headers = append(headers, header)
@@ -407,6 +414,23 @@ func (mw *msgWriter) newPart(header map[string][]string) {
 	mw.partWriter, mw.err = mw.multiPartWriter[mw.depth-1].CreatePart(header)
 }
 
+// writePartHeader writes the header section of an entity that is not enclosed in a multipart
+// in exactly the form multipart.Writer.CreatePart gives the header of an enclosed part: the
+// fields in sorted order, one unfolded "key: value" line per value, then an empty line.
+func (mw *msgWriter) writePartHeader(header map[string][]string) {
+	keys := make([]string, 0, len(header))
+	for key := range header {
+		keys = append(keys, key)
+	}
+	sort.Strings(keys)
+	for _, key := range keys {
+		for _, value := range header[key] {
+			mw.writeString(fmt.Sprintf("%s: %s%s", key, value, SingleNewLine))
+		}
+	}
+	mw.writeString(SingleNewLine)
+}
+
 // writePart writes the corresponding part to the Msg body.
 //
 // This function writes a MIME part to the message body, setting the appropriate headers such
@@ -430,12 +454,12 @@ func (mw *msgWriter) writePart(part *Part, charset Charset) {
 	}
 	contentTransferEnc := part.encoding.String()
 
-	if mw.depth == 0 {
+	if mw.depth == 0 && !mw.enclosedForm {
 		mw.writeHeader(HeaderContentTransferEnc, contentTransferEnc)
 		mw.writeHeader(HeaderContentType, contentType)
 		mw.writeString(SingleNewLine)
 	}
-	if mw.depth > 0 {
+	if mw.depth > 0 || mw.enclosedForm {
 		mimeHeader := textproto.MIMEHeader{}
 		if part.description != "" {
 			mimeHeader.Add(string(HeaderContentDescription),
@@ -443,7 +467,11 @@ func (mw *msgWriter) writePart(part *Part, charset Charset) {
 		}
 		mimeHeader.Add(string(HeaderContentTransferEnc), contentTransferEnc)
 		mimeHeader.Add(string(HeaderContentType), contentType)
-		mw.newPart(mimeHeader)
+		if mw.depth > 0 {
+			mw.newPart(mimeHeader)
+		} else {
+			mw.writePartHeader(mimeHeader)
+		}
 	}
 	if mw.err == nil {
 		mw.writeBody(part.writeFunc, part.encoding)
